@@ -749,7 +749,13 @@ func (e *StatementExecutor) executeShowMeasurementsStatement(ctx *query.Executio
 				Err: fmt.Errorf("query 'SHOW MEASUREMENTS ON *' not supported. use 'ON *.*' or specify a database"),
 			})
 		}
+		a := ctx.ExecutionOptions.CoarseAuthorizer
 		for _, dbInfo := range e.MetaClient.Databases() {
+			// Only include databases that the user is authorized to read. The statement
+			// itself was authorized against the default database only.
+			if a != nil && !a.AuthorizeDatabase(influxql.ReadPrivilege, dbInfo.Name) {
+				continue
+			}
 			for _, rpInfo := range dbInfo.RetentionPolicies {
 				sources = append(sources, struct{ db, rp string }{dbInfo.Name, rpInfo.Name})
 			}
